@@ -215,6 +215,12 @@ def policyOK (w : World) (name : Bytes) : Bool :=
   | none => true
   | some l => l.contains name
 
+/-- the host policy is observable only when one is configured -/
+def polEv (w : World) (name : Bytes) : List Ev :=
+  match w.whitelist with
+  | none => []
+  | some _ => [.policy name]
+
 /-- events of `cacheGet`: the cache is only consulted when one is configured -/
 def getEv (w : World) (ck : CertKey) : List Ev :=
   match w.cache with
@@ -226,40 +232,56 @@ def putEv (w : World) (ck : CertKey) : List Ev :=
   | none => []
   | some _ => [.put ck.str]
 
+abbrev Outcome := List Ev × Res × List (Bytes × StateVal)
+
+/-- the two `ServerName` checks at the top of `GetCertificate` -/
+def nameOK (h : Hello) : Bool := !h.name.isEmpty && (trimDots h.name).contains dot
+
+/-- the certKey `GetCertificate` works with for a non-token hello -/
+def certKeyOf (h : Hello) (name : Bytes) : CertKey := ⟨trimSuffixDot name, !supportsECDSA h, false⟩
+
+/-- tls-alpn-01 challenge hello: only `m.certTokens` (empty here) and the cache; no host policy -/
+def tokenPath (w : World) (name : Bytes) (now : Int) : Outcome :=
+  let ck : CertKey := ⟨name, false, true⟩
+  match cacheGet w.cache ck now with
+  | .ok c => (getEv w ck, .token c, w.state)
+  | _ => (getEv w ck, .errNoToken, w.state)
+
+/-- `createCert` as the owner of a fresh state entry: order, `validCert` on the CA's answer, `cachePut` -/
+def issue (w : World) (ck : CertKey) (now : Int) : Outcome :=
+  match w.ca ck with
+  | none => ([.order ck.domain], .errIssue, (ck.str, .failed) :: w.state)
+  | some c =>
+    if validCert ck c now then
+      (.order ck.domain :: putEv w ck, .issued c, (ck.str, .ready c) :: w.state)
+    else ([.order ck.domain], .errIssue, (ck.str, .failed) :: w.state)
+
+/-- `m.cert` followed, on ErrCacheMiss, by `createCert` -/
+def lookupOrIssue (w : World) (ck : CertKey) (now : Int) : Outcome :=
+  match w.state.lookup ck.str with
+  | some (.ready c) => ([], .served c, w.state)
+  | some .failed => ([], .errIssue, w.state)
+  | none =>
+    match cacheGet w.cache ck now with
+    | .ok c => (getEv w ck, .served c, (ck.str, .ready c) :: w.state)
+    | .err => (getEv w ck, .errCache, w.state)
+    | .miss =>
+      let r := issue w ck now
+      (getEv w ck ++ r.1, r.2)
+
 /-- `GetCertificate` for one hello on a quiescent Manager: the externally visible calls
     (host policy, cache, CA orders) in order, the result, and the new `m.state`.
     `ascii` is `idna.Lookup.ToASCII(name)` (none = error). -/
-def getCertificate (w : World) (h : Hello) (ascii : Option Bytes) (now : Int) :
-    List Ev × Res × List (Bytes × StateVal) :=
-  if h.name.isEmpty then ([], .errName, w.state)
-  else if !(trimDots h.name).contains dot then ([], .errName, w.state)
+def getCertificate (w : World) (h : Hello) (ascii : Option Bytes) (now : Int) : Outcome :=
+  if !nameOK h then ([], .errName, w.state)
   else match ascii with
   | none => ([], .errIdna, w.state)
   | some name =>
-    if wantsTokenCert h then
-      let ck : CertKey := ⟨name, false, true⟩
-      match cacheGet w.cache ck now with
-      | .ok c => (getEv w ck, .token c, w.state)
-      | _ => (getEv w ck, .errNoToken, w.state)
-    else if !policyOK w name then ([.policy name], .errPolicy, w.state)
+    if wantsTokenCert h then tokenPath w name now
+    else if !policyOK w name then (polEv w name, .errPolicy, w.state)
     else
-      let ck : CertKey := ⟨trimSuffixDot name, !supportsECDSA h, false⟩
-      match w.state.lookup ck.str with
-      | some (.ready c) => ([.policy name], .served c, w.state)
-      | some .failed => ([.policy name], .errIssue, w.state)
-      | none =>
-        match cacheGet w.cache ck now with
-        | .ok c => (.policy name :: getEv w ck, .served c, (ck.str, .ready c) :: w.state)
-        | .err => (.policy name :: getEv w ck, .errCache, w.state)
-        | .miss =>
-          -- createCert: this caller becomes the owner of a fresh state entry
-          match w.ca ck with
-          | none => (.policy name :: getEv w ck ++ [.order ck.domain], .errIssue, (ck.str, .failed) :: w.state)
-          | some c =>
-            if validCert ck c now then
-              (.policy name :: getEv w ck ++ [.order ck.domain] ++ putEv w ck, .issued c, (ck.str, .ready c) :: w.state)
-            else
-              (.policy name :: getEv w ck ++ [.order ck.domain], .errIssue, (ck.str, .failed) :: w.state)
+      let r := lookupOrIssue w (certKeyOf h name) now
+      (polEv w name ++ r.1, r.2)
 
 /-! ## 3. `certState` / `createCert` as a transition system
 
